@@ -211,6 +211,32 @@ def check_C02(chk):
         chk.unproved("correspondence: a send()'s call sequence differs from Frag.send on %d of %d sends (premise of Conc: first packet on the shared "
                      "socket carrying the dedicated receiver, follow-ups on the dedicated socket)" % (len(bad), ncmp),
                      {"input": it["case"], "observed_send": it["send_obs"], "model": F.model_view(it)})
+    # exactly once across a change of owner: the first owner takes ONE of several queued messages with a plain receive, then the receiver
+    # travels on inside a message; the new owner gets every other message once, in order, then the later ones (wake driver, both builds)
+    prng = random.Random(chk.seed + 19)
+    pcs = [{"id": 700 + i, "mode": ["recv", "timed", "poll"][i % 3], "nmsg": [2, 5, 34, 40, 70][i % 5], "clones": prng.randint(1, 3)} for i in range(20 if thorough else 10)]
+    plines = ["id=%d how=partial mode=%s delay_us=300 nmsg=%d clones=%d" % (c["id"], c["mode"], c["nmsg"], c["clones"]) for c in pcs]
+    for fl in ("default", "inprocess"):
+        precs, _, prc, perr = C.run_harness(bins[fl], "wake", plines, shim=False, timeout=300)
+        pby = {r["id"]: r for r in precs if r.get("kind") == "wake"}
+        for l, c in zip(plines, pcs):
+            r = pby.get(c["id"])
+            why = None
+            if r is None:
+                why = "no record (process died): %s" % perr[-200:]
+            elif r.get("first") != 0:
+                why = "the first owner's receive returned %s instead of message 0" % r.get("first")
+            elif r["out"] == "Hang":
+                why = "the new owner waited for ever (watchdog 8 s)"
+            elif r["got"] != list(range(1, c["nmsg"] + c["clones"])):
+                why = ("the new owner received %s instead of messages 1..%d once each in order (%d were queued when the first owner took message 0, %d were sent after the transfer)"
+                       % (r["got"][:12], c["nmsg"] + c["clones"] - 1, c["nmsg"], c["clones"]))
+            if why:
+                fails.append((None, why))
+                chk.failing_input("a receiver whose first owner took one of several queued messages and then sent it on inside a message, %s build: %s" % (fl, why),
+                                  {"build": fl, "scenario": l, "observed": r}, key="partial:%s:%s" % (fl, l))
+                break
+        cov.setdefault("partial_receive_then_transfer", {})[fl] = len(pby)
     chk.assumptions += ["SOCK_SEQPACKET keeps packet boundaries and per-socket FIFO order (kernel; trusted)",
                         "real thread scheduling is not exhibited by the model: the theorem covers every interleaving, the runs sample some"]
     finish_proof(chk, proof_ok, fails, bad)
@@ -682,6 +708,19 @@ def check_C09(chk):
             chk.unproved("correspondence InprocSrvCheck.check_isrv_sends: result of a send to a client endpoint of a dropped in-process server differs from the InprocSrv LTS",
                          {"input": ibad[0]["case"], "observed": ibad[0]["rec"]})
         bad = bad + ibad
+    # receivers IN TRANSIT inside messages that are themselves sent from inside another value's serialisation (after the enclosing value
+    # attached endpoints of its own): they arrive, usable, at the position they were embedded at (script driver shared with C14)
+    from . import props_codec as PC9
+    scases, sgot, sfails, stodo, sbad, serrors = PC9.script_stage(chk, random.Random(chk.seed + 33), bins["default"], 800 if thorough else 80, 3, tag="c09script")
+    chk.coverage["nested_send_values"] = len(scases)
+    if serrors:
+        chk.unproved("model evaluation (coqc on generated nested-send cases) failed", serrors[0][-1500:])
+    if sbad and not sfails and not fails:
+        c9, r9 = sbad[0]
+        chk.unproved("correspondence TlsCheck.check_script: attachments of nested / enclosing messages differ from Tls.ipc_send on %d of %d values" % (len(sbad), len(stodo)),
+                     {"serializer_program": c9["body"], "kinds": c9["kinds"], "pre": c9["pre"], "observed": r9 and r9["result"]})
+    fails = fails + list(sfails)
+    bad = bad + list(sbad)
     # receivers that vanish inside histories (dropped, moved, carried by messages that die or cannot be decoded): prog driver slice
     from . import props_prog as PP
     pf, pb = PP.prog_slice(chk, "C09", bins["default"], 400 if thorough else 48, 60)
